@@ -31,6 +31,7 @@ func c04Check(c c04Case) string {
 	merged := model.Merge(c.Forest)
 	cs := ops.NewCase("output", "md")
 	cs.Opts.Encode = c.Format
+	cs.Opts.NilOpts = len(c.Forest)%2 == 0 || c.Again > 0
 	switch c.Entry {
 	case "root":
 		cs.Entry = "root"
